@@ -64,6 +64,20 @@ class C01(L1Prop):
             ops, g = rand_prefix(rng, rng.randint(8, length), nc, adv, True, False, obs)
             ops += [f"walk {c}" for c in range(1, nc + 1)]
             out.append(Case(f"c01-{k}", ops))
+        # histories in which storage calls fail now and then (the failed request is retried): what was
+        # never accepted must not become part of the chain, what was accepted must stay walkable
+        for k in range(sizes(tier, 16, 200)):
+            ops = ["ensure 1"]
+            for i in range(rng.randint(4, 12)):
+                par = ("nil" if k % 2 else "fresh") if i == 0 else "latest:1"
+                if rng.random() < 0.5:
+                    # never "after" on the commit itself (call 3): that is the acknowledgement-lost outcome of C05
+                    ops += [f"fault {rng.choice(['1:before', '1:after', '2:before', '2:after', '3:before'])}", f"av 1 {par} b:9,{i}"]
+                ops += [f"av 1 {par} b:1,{i}"]
+                if rng.random() < 0.3:
+                    ops += [f"fault {rng.randint(1, 6)}:before", "as 1 latest:1 b:5", "as 1 latest:1 b:6"]
+            ops += ["walk 1", "reopen", "walk 1"]
+            out.append(Case(f"c01-fault-{k}", ops, {"faults": True, "only": "sqlite"}))   # the in-memory test backend has no rollback
         return out
     def relevant(self, i, trace):
         o, ri, rm = trace[i]
